@@ -700,6 +700,7 @@ def save_replay_script(v, wd, general_traces):
 # ------------------------------------------------------------------------------------------
 # C01: compositing operators
 
+SOLID16 = [0xffff, 0xfffe, 0xffc0, 0xff80, 0xff00, 0xfeff, 0x8000, 0x0100, 0x00ff, 1, 0]
 QUICK_DST = ["a8r8g8b8", "x8r8g8b8", "r5g6b5", "a8", "a1r5g5b5", "a2r10g10b10"]
 QUICK_SRC = ["a8r8g8b8", "x8r8g8b8", "r5g6b5", "a8", "a4r4g4b4", "a2r10g10b10", "b8g8r8a8"]
 QUICK_MSK = ["a8", "a8r8g8b8", "a4", "a1", "x8r8g8b8"]
@@ -802,7 +803,7 @@ def library_fastpaths(fmts):
     return res, True
 
 
-def build_row(tc, fs, fm, fd, pres, mpres, rng, origin, chain=None):
+def build_row(tc, fs, fm, fd, pres, mpres, rng, origin, chain=None, solid16=None, msolid16=None):
     """one composite request from a TLC-generated row of abstract pixel tuples; chain = the previous request
        whose destination this one continues on (same geometry; DST "=")"""
     op, mode, fam, row = tc["op"], tc["mode"], tc["fam"], tc["row"]
@@ -816,6 +817,8 @@ def build_row(tc, fs, fm, fd, pres, mpres, rng, origin, chain=None):
         sw = (sx + w - 1) // 2 + 2
     elif pres == 5:
         sx, sw = rng.randint(0, 5), 1
+    elif pres == 7:
+        sx, sw = 0, 1
     else:
         sx = rng.randint(0, 2)
         sw = sx + w + 1
@@ -825,18 +828,26 @@ def build_row(tc, fs, fm, fd, pres, mpres, rng, origin, chain=None):
             return (sx + i) // 2
         if pres in (3, 6):
             return min(max(sx + i, 0), sw - 1)
-        if pres == 5:
+        if pres in (5, 7):
             return 0
         return sx + i
-    spx = [rng.getrandbits(fs.bpp) for _ in range(sw)]
-    for i, t in enumerate(row):
-        v = native_from8(fs, *t["s"])
-        if not exact:
-            v = premult_native(fs, v)
-        spx[spos(i)] = fs.word(v)
-    src = pack_pixels(fs.bpp, spx, 0, sw, rng, pad_words=0 if pres == 5 else 1)
+    if pres == 7:               # a solid-fill image: solid16 = 16-bit (a, r, g, b)
+        spx = [solid16[0] | solid16[1] << 16 | solid16[2] << 32 | solid16[3] << 48]
+        src = struct.pack("<4H", *solid16)
+    else:
+        spx = [rng.getrandbits(fs.bpp) for _ in range(sw)]
+        for i, t in enumerate(row):
+            v = native_from8(fs, *t["s"])
+            if not exact:
+                v = premult_native(fs, v)
+            spx[spos(i)] = fs.word(v)
+        src = pack_pixels(fs.bpp, spx, 0, sw, rng, pad_words=0 if pres == 5 else 1)
     if fm is not None:
-        if mpres == 1:
+        if mpres == 2:          # a solid-fill mask
+            mx, mw = 0, 1
+            mpx = [msolid16[0] | msolid16[1] << 16 | msolid16[2] << 32 | msolid16[3] << 48] * w
+            msk = struct.pack("<4H", *msolid16)
+        elif mpres == 1:
             mx, mw = rng.randint(0, 3), 1
             mraw = [fm.word(native_from8(fm, *row[0]["m"]))]
             mpx = [mraw[0]] * w
@@ -929,6 +940,39 @@ def gen_c01_cases(fmts, tcases, fastpaths, rng, tier):
             else:
                 pres = rng.choice([2, 4, 6])
             out.append(build_row(tc, fp["fs"], fp["fm"], fp["fd"], pres, 1 if fp["msolid"] else 0, rng, "fastpath"))
+    # ---- solid-fill images (pixman_image_create_solid_fill) as source and as mask, with 16-bit channels that are
+    #      not replications of 8-bit values: the 8-bit pipeline sees the high bytes, the float pipeline the true
+    #      values (alpha 0xff00..0xfffe is NOT opaque); bright destinations make a lost (1 - sa) d term visible
+    deep = [fmts[n] for n in ("a2r10g10b10", "x2r10g10b10", "a2b10g10r10", "x2b10g10r10")]
+    shallow = [A8888, fmts["r5g6b5"], fmts["x8r8g8b8"], fmts["a8"]]
+    k = 0
+    for (op, mode), cands in sorted(by.items()):
+        if op in (59, 60, 61, 62) and mode == "ca":
+            continue
+        pool = [c for c in cands if c["fam"] in ("sat", "premul", "rndpm", "edge")]
+        for a16 in SOLID16:
+            k += 1
+            tc = dict(pool[k % len(pool)])
+            row = [dict(t) for t in tc["row"][:8]]
+            for i, t in enumerate(row):                   # bright (white / opaque) destinations on half of the pixels
+                if i % 2 == 0:
+                    t["d"] = [255, 255, 255, 255]
+            tc["row"] = row
+            col = [a16] + [min(rng.choice(SOLID16), a16) for _ in range(3)]
+            fd = deep[k % 4] if (k % 5) else shallow[(k // 5) % 4]
+            if mode == "none":
+                out.append(build_row(tc, A8888, None, fd, 7, 0, rng, "solid16", solid16=col))
+            else:
+                # solid mask over an opaque bits source (the mask alone carries the coverage), and solid source under a bits mask
+                if k % 3:
+                    for t in row:
+                        t["s"] = [255] + list(t["s"][1:])
+                    mcol = col if mode == "ca" else [a16, 0, 0, 0]
+                    out.append(build_row(tc, fmts["x8r8g8b8"] if k % 2 else A8888, A8888, fd, rng.choice([0, 0, 5]), 2, rng,
+                                         "solid16", msolid16=mcol))
+                else:
+                    fm = fmts["a8"] if mode == "unified" else A8888
+                    out.append(build_row(tc, A8888, fm, fd, 7, rng.choice([0, 1]), rng, "solid16", solid16=col))
     return out
 
 
@@ -993,9 +1037,10 @@ def run_c01(args):
     chk.extra["pixel_cases"] = npx
     chk.extra["pixel_cases_exact_class"] = sum(c["w"] for c in cases if c["exact"])
     chk.extra["pixel_cases_tolerance_class"] = sum(c["w"] for c in cases if not c["exact"])
-    chk.extra["rows_by_presentation"] = {str(p): sum(1 for c in cases if c["pres"] == p) for p in range(7)}
+    chk.extra["rows_by_presentation"] = {str(p): sum(1 for c in cases if c["pres"] == p) for p in range(8)}
     chk.extra["rows_with_solid_mask"] = sum(1 for c in cases if c["mpres"] == 1)
     chk.extra["rows_aimed_at_fast_paths"] = sum(1 for c in cases if c["origin"] == "fastpath")
+    chk.extra["rows_with_solid_fill_source_or_mask_16bit"] = sum(1 for c in cases if c["origin"] == "solid16")
     chk.extra["rows_chained_on_previous_destination"] = sum(1 for c in cases if c["origin"] == "chain")
     chk.extra["rows_wide_pipeline_with_mask_and_transformed_source"] = sum(
         1 for c in cases if c["pres"] != 0 and c["mode"] != "none" and (not c["narrow"] or c["op"] in NEEDS_DIV))
@@ -1010,7 +1055,7 @@ def run_c01(args):
     traces = run_driver(exe, lines, wd, "def", nb)
     traces_g = run_driver(exe, lines, wd, "gen", nb, env_extra=GENERAL_ONLY)
     # the portable C fast paths are shadowed by the SIMD ones in the default chain: run them on their own
-    cfast = [c for c in cases if c["origin"] == "fastpath" or args.tier != "quick"]
+    cfast = [c for c in cases if c["origin"] in ("fastpath", "solid16") or args.tier != "quick"]
     traces_c = run_driver(exe, script_units(cfast), wd, "cfp", nb, env_extra=C_FAST_PATHS)
     chk.evaluations = 2 * npx + sum(c["w"] for c in cfast)
 
